@@ -6,14 +6,14 @@
     transmitted (simple code; or code-length-code lengths, max_symbol, and the
     16/17/18 run-length tokenisation), and the token list (literal / cache
     index / backward reference with its distance code).  [emit] writes the
-    stream with the numeric canonical code assignment (RFC 1951 §3.2.2);
+    stream with the canonical code words of [Vp8lCanon] (RFC 1951 §3.2.2 numbering);
     [sem] replays the tokens and applies the inverse transforms, without any
     bit-level parsing.  The harness draws random well-formed plans so that the
     Go decoder is exercised on every feature of the format, not only on what
     /repo's encoder emits. *)
 From Coq Require Import List ZArith Lia Bool.
 From Coq Require Import ZifyBool ZifyNat.
-From Webp Require Import Base.Res Vp8l.Vp8lPixel Vp8l.Vp8lArr Vp8l.Vp8lPrefix Vp8l.Vp8lTransforms Vp8l.Vp8lSpec.
+From Webp Require Import Base.Res Vp8l.Vp8lPixel Vp8l.Vp8lArr Vp8l.Vp8lPrefix Vp8l.Vp8lCanon Vp8l.Vp8lTransforms Vp8l.Vp8lSpec.
 Import ListNotations.
 Open Scope Z_scope.
 
@@ -74,32 +74,17 @@ Definition code_lens (alphabet : Z) (cp : codeplan) : list Z :=
   end.
 
 (* ------------------------------------------------------------------ *)
-(** * Canonical code words, all symbols at once *)
+(** * Canonical code words: [Vp8lCanon.code_list] (symbol, code word) pairs *)
 
-Fixpoint assign_codes (lens : list Z) (next : arr Z) : list bits :=
-  match lens with
-  | [] => []
-  | l :: tl =>
-    if l =? 0 then [] :: assign_codes tl next
-    else let c := arr_get 0 next l in
-         msb_bits (Z.to_nat l) c :: assign_codes tl (arr_set next l (c + 1))
-  end.
-
-(** code word per symbol; a code with a single used symbol costs no bits *)
-Definition code_table (lens : list Z) : arr bits :=
-  match lens_items lens with
-  | [_] => arr_empty
-  | _ => arr_of_list (assign_codes lens (arr_of_list (0 :: first_codes lens 15 0 0)))
-  end.
-
-Definition code_word (tab : arr bits) (sym : Z) : bits := arr_get [] tab sym.
+Definition code_table (lens : list Z) : list (Z * bits) := code_list lens.
+Definition code_word (tab : list (Z * bits)) (sym : Z) : bits := lookup_code tab sym.
 
 (* ------------------------------------------------------------------ *)
 (** * Emitting one prefix code *)
 
 Definition putZ (n v : Z) : bits := put_bits (Z.to_nat n) v.
 
-Definition emit_cltok (cltab : arr bits) (t : cltok) : bits :=
+Definition emit_cltok (cltab : list (Z * bits)) (t : cltok) : bits :=
   match t with
   | CLlit l => code_word cltab l
   | CLrep16 n => code_word cltab 16 ++ putZ 2 (n - 3)
@@ -159,12 +144,12 @@ Definition sem_eimg (w : Z) (ep : eplan) : list px :=
 Definition alphabets (cb : Z) : list Z := [280 + cache_size_of cb; 256; 256; 256; 40].
 
 (** the five code tables of one group *)
-Definition group_tables (cb : Z) (g : list codeplan) : list (arr bits) :=
+Definition group_tables (cb : Z) (g : list codeplan) : list (list (Z * bits)) :=
   map (fun '(a, cp) => code_table (code_lens a cp)) (combine (alphabets cb) g).
 
-Definition tab_k (g : list (arr bits)) (k : nat) : arr bits := nth k g arr_empty.
+Definition tab_k (g : list (list (Z * bits))) (k : nat) : list (Z * bits) := nth k g [].
 
-Definition emit_token (g : list (arr bits)) (t : token) : bits :=
+Definition emit_token (g : list (list (Z * bits))) (t : token) : bits :=
   match t with
   | TLit p =>
     code_word (tab_k g 0) (pg p) ++ code_word (tab_k g 1) (pr p)
@@ -180,7 +165,7 @@ Definition emit_token (g : list (arr bits)) (t : token) : bits :=
 Definition token_len (t : token) : Z := match t with TCopy len _ => len | _ => 1 end.
 
 (** [gidx x y] = group of the token that starts at (x, y). *)
-Fixpoint emit_tokens (w : Z) (gidx : Z -> Z -> Z) (tabs : arr (list (arr bits)))
+Fixpoint emit_tokens (w : Z) (gidx : Z -> Z -> Z) (tabs : arr (list (list (Z * bits))))
          (toks : list token) (pos : Z) : bits :=
   match toks with
   | [] => []
@@ -193,7 +178,7 @@ Definition emit_cache_bits (cb : Z) : bits := if cb =? 0 then [false] else true 
 
 Definition emit_codes (ep : eplan) : bits := flat_map (flat_map emit_code) (ep_codes ep).
 
-Definition all_tables (ep : eplan) : arr (list (arr bits)) :=
+Definition all_tables (ep : eplan) : arr (list (list (Z * bits))) :=
   arr_of_list (map (group_tables (ep_cache_bits ep)) (ep_codes ep)).
 
 (** a sub-image: colour cache info, one group, tokens *)
